@@ -368,6 +368,87 @@ def long_iteration_oracle(ctx):
     ctx.support["long_iteration"] = dict(cases=1, nontrivial=1, failures=1 if detail else 0)
 
 
+def projection_check(sc):
+    """find(p, src) is find_matches(p, src) with every match replaced by its data — call for call, also for
+    the calls made after a predicate raised and after iter() was called again on the iterator"""
+    from observe import observe_query
+    a = observe_query(dict(sc, api="find_matches"), traced=sc.get("traced", True))
+    b_ = observe_query(dict(sc, api="find"), traced=sc.get("traced", True))
+    if a == "nosrc" or b_ == "nosrc":
+        return (None, False) if a == b_ else ("source match differs", True)
+    pa = [["V", s["s"][1]["d"]] if s["s"][0] == "R" else s["s"] for s in a]
+    pb = [s["s"] for s in b_]
+    if pa != pb:
+        k = next((i for i in range(min(len(pa), len(pb))) if pa[i] != pb[i]), min(len(pa), len(pb)))
+        return (f"call {k}: find_matches gives {json.dumps(pa[k] if k < len(pa) else None)[:160]}, "
+                f"find gives {json.dumps(pb[k] if k < len(pb) else None)[:160]}"), True
+    return None, any(x[0] == "X" for x in pa) and any(x[0] == "V" for x in pa)
+
+
+def projection_oracle(ctx):
+    import corr
+
+    def make(rng):
+        sc = gen.gen_query(rng, rng.choice(["filter", "all", "parent"]), pred_profile=rng.choice(["custom", "mixed"]),
+                           api="find_matches", with_src=rng.random() < 0.6)
+        sc["id"] = 0
+        sc = corr.finalize_query(sc)
+        sc["nexts"] = sc.get("nexts", 1) + rng.choice([1, 2, 3])     # keep calling after the end / after an error
+        if rng.random() < 0.4:
+            sc["reiter_at"] = rng.randint(1, max(1, sc["nexts"] - 1))
+        sc["traced"] = rng.random() < 0.5
+        return sc
+    _run(ctx, "projection", 800, 20000, make, projection_check)
+
+
+def fatigue_check(sc):
+    """a path object that has been through many failed evaluations (its predicate raised) is still the
+    same expression: a later evaluation equals that of a freshly built copy, and an iteration over a healthy
+    document that was already under way is not disturbed"""
+    good = dec(sc["good"])
+    bad = dec(sc["bad"])
+
+    def build():
+        def pred(m):
+            if m.data == "boom":
+                raise ValueError("malformed")
+            return isinstance(m.data, (int, str))
+        return Builder([]).steps(sc["prefix"])[pred]
+    used, fresh = build(), build()
+    live = find(used, good)
+    first = []
+    try:
+        first.append(next(live))
+    except StopIteration:
+        pass
+    for _ in range(sc["failures"]):
+        try:
+            list(find(used, bad))
+        except TreepathException:
+            pass
+    try:
+        rest = []
+        while True:              # not list(live): iter() on a traverser starts the search over
+            try:
+                rest.append(next(live))
+            except StopIteration:
+                break
+        again = list(find(used, good))
+    except Exception as e:  # noqa
+        return f"after {sc['failures']} failed evaluations of a path object a search over a healthy document raised {type(e).__name__}", True
+    want = list(find(fresh, good))
+    if first + rest != want or again != want:
+        return f"after {sc['failures']} failed evaluations: live iterator {first + rest!r:.80}, new iterator {again!r:.80}, fresh copy {want!r:.80}", True
+    return None, True
+
+
+def fatigue_oracle(ctx):
+    def make(rng):
+        return {"prefix": rng.choice([[["wc"]], [["gwc"]], [["rec"]]]), "failures": rng.choice([120, 260]),
+                "good": enc({"a": 1, "b": "x", "c": [2, "y"], "d": {"e": 3}}), "bad": enc({"a": 1, "z": "boom", "b": 2})}
+    _run(ctx, "fatigue", 3, 12, make, fatigue_check)
+
+
 def big_iteration_check(sc):
     """"all documents" includes long ones: an iteration that delivers several hundred thousand results
     delivers all of them (the action budget is per next(), not per iterator), through every entry point"""
@@ -1225,10 +1306,21 @@ def documented_check(sc):
                     ms = list(itertools.islice(find_matches(b.steps(op[3][0]), doc), op[3][1] + 1))
                     if len(ms) > op[3][1]:
                         src = ms[op[3][1]]
-                if op[1] == "find":
-                    list(itertools.islice(find(expr, src), 100))
-                elif op[1] == "find_matches":
-                    list(itertools.islice(find_matches(expr, src), 100))
+                if op[1] in ("find", "find_matches"):
+                    # the caller keeps using the iterator after an error it has caught
+                    it = (find if op[1] == "find" else find_matches)(expr, src)
+                    caught = []
+                    for _ in range(100):
+                        try:
+                            next(it)
+                        except StopIteration:
+                            break
+                        except allowed as e1:
+                            caught.append(e1)
+                            if len(caught) > 3:
+                                break
+                    if caught:
+                        raise caught[0]     # rendered and checked below
                 elif op[1] == "get_match":
                     get_match(expr, src, must_match=op[4])
                 else:
